@@ -25,11 +25,11 @@ ASSUMPTIONS = [
     "helices are limited to 20 turns (the 500-sample length estimate aliases far above that)",
 ]
 TIERS = {
-    "quick": {"shards": 16, "cases": 320, "max_ratio": 1e4, "timeout": 400},
+    "quick": {"shards": 16, "cases": 320, "max_ratio": 4e3, "timeout": 400},
     "thorough": {"shards": 16, "cases": 4800, "max_ratio": 1e5, "timeout": 3400},
 }
 FLOORS = {
-    "quick": {"counts": {"segments_measured": 150000, "constant_speed_shapes": 150,
+    "quick": {"counts": {"segments_measured": 100000, "constant_speed_shapes": 150,
                          "halving_comparisons": 250, "unit_switch_checks": 300}, "keys": 40},
     "thorough": {"counts": {"segments_measured": 5000000, "constant_speed_shapes": 2500}, "keys": 60},
 }
